@@ -1017,6 +1017,10 @@ class HistogramBase(abc.ABC):
                 self._coerce_dtype(factor_dtype)
             except ValueError as v:
                 raise TypeError(str(v)) from v
+            if scalar < 0 and not config.free_arithmetics:
+                # (the frequencies setter refuses negative contents, but empty bins stay zero
+                # while underflow / overflow / missed would turn negative)
+                raise ValueError("Cannot have negative frequencies.")
             # Calculate (and possibly fail) before anything is changed
             frequencies = self.frequencies * scalar
             errors2 = self.errors2 * scalar**2
@@ -1054,6 +1058,8 @@ class HistogramBase(abc.ABC):
             elif isinstance(other, np.floating) and other.dtype.itemsize < 8:
                 other = float(other)  # ... nor under- / overflow in float16 / float32
             inverse = 1 / other  # Fail (e.g. for zero) before anything is changed
+            if other < 0 and not config.free_arithmetics:
+                raise ValueError("Cannot have negative frequencies.")
             self._coerce_dtype(np.float64)
             frequencies = self.frequencies / other
             errors2 = self.errors2 / other**2
